@@ -400,6 +400,9 @@ def get_mean_var_from_ecdf(q, p):
 
     # Step 1: Recover PMF
     pmf = [p[0]] + [p[i] - p[i - 1] for i in range(1, len(p))]
+    # the probability grid may stop short of 1 (e.g. 0.999): renormalise so that the masses sum to one
+    total = sum(pmf)
+    pmf = [m / total for m in pmf]
 
     # Step 2: Compute Mean
     mean = sum(x * p for x, p in zip(q, pmf))
